@@ -5,10 +5,17 @@
    occupies is collected (10 / 50 points; 30 frightened steps) and wiped from the map, the pellet counter drops by one
    per pellet, the score accumulates the reward (pellet + power-up + 200 per edible ghost caught), and the step is LAST
    exactly when the clock reaches the limit, the player was caught, or no pellet is left.
-   The ghosts' own movement is NOT specified declaratively: it is an explicit draw constrained by valid_draw (C07).
+   The ghosts: their four actions are explicit draws; Model/PacManGhost.v models the set ghost_move can return EXACTLY
+   (ghost_exact; the harness checks on every implementation transition that the actions taken lie in it, and in constructed
+   situations, re-running the step under sampled keys, that every action in it is produced).  C09_PacMan_ghost_rule reads the
+   set declaratively: a waiting ghost (ghost_start >= 0) does not move (4); a ghost in a straight corridor repeats its
+   action; otherwise it takes a neighbour (0 left, 1 up, 2 right, 3 down) that is seen free and is not the cell recorded
+   in old_ghost_locations and whose distance to the ghost's target (ghost_dist: init target / scatter target when
+   frightened / per-ghost chase target) is minimal among those -- any of the four when there is none.  The only
+   randomness is the choice among ties.
    Documentation mismatches observed (code modelled as is): a power pellet pays 50 (+10 for the pellet under it), the
    docs say 20; the map has 318 pellets, the docs say 316; the no-op does not "repeat the last action", it stays. *)
-Require Import JV.Base.Prelude JV.Base.JaxIndex JV.Base.Codec JV.Base.TimeStep JV.Gen.PacManConsts JV.Model.PacMan JV.Proofs.PacMan JV.Proofs.PacMan_Inv JV.Proofs.PacMan_Rules.
+Require Import JV.Base.Prelude JV.Base.JaxIndex JV.Base.Codec JV.Base.TimeStep JV.Gen.PacManConsts JV.Model.PacMan JV.Proofs.PacMan JV.Model.PacManGhost JV.Proofs.PacMan_Inv JV.Proofs.PacMan_Rules JV.Proofs.PacMan_Ghost.
 Theorem C09_PacMan_step_follows_rules xs ys T s a d :
   wf_grid xs ys (grid s) -> free xs ys (grid s) (px s) (py s) -> 0 <= a <= 4 ->
   let s' := fst (step xs ys T s a d) in
@@ -22,6 +29,34 @@ Theorem C09_PacMan_player_rule xs ys s a :
   wf_grid xs ys (grid s) -> free xs ys (grid s) (px s) (py s) -> 0 <= a <= 4 ->
   nxy xs ys s a = rule_player xs ys (grid s) (px s) (py s) a.
 Proof. exact (nxy_rule xs ys s a). Qed.
+Theorem C09_PacMan_ghost_rule xs ys s a i d :
+  let c := fst (gpos (ghosts s) i) in let r := snd (gpos (ghosts s) i) in
+  let valid := nb_valid (grid s) (fst (gpos (old_ghosts s) i)) (snd (gpos (old_ghosts s) i)) in
+  let dist := ghost_dist xs ys s a i c r in
+  ghost_exact xs ys s a i d = true <->
+  (0 <= znth 0 (g_starts s) i /\ d = 4) \/
+  (znth 0 (g_starts s) i < 0 /\ in_tunnel (ghost_valids (grid s) c r) = true /\ d = znth 0 (g_actions s) i) \/
+  (znth 0 (g_starts s) i < 0 /\ in_tunnel (ghost_valids (grid s) c r) = false /\ 0 <= d < 4 /\
+   ((forall k, 0 <= k < 4 -> valid (nbr c r k) = false) \/
+    (valid (nbr c r d) = true /\ forall k, 0 <= k < 4 -> valid (nbr c r k) = true -> dist (nbr c r d) <= dist (nbr c r k)))).
+Proof. exact (ghost_exact_spec xs ys s a i d). Qed.
+Print Assumptions C09_PacMan_ghost_rule.
+Theorem C09_PacMan_ghost_rule_total xs ys s a : exists d, exact_draw xs ys s a d = true.
+Proof. exact (exact_draw_exists xs ys s a). Qed.
+(* non-vacuity of the ghost rule: four ghosts on the crossing (row 5, column 6), arrived from above (row 4), the player on
+   the same cell and not moving: for ghost 0 the three remaining neighbours tie (distance 1), "up" is backtracking;
+   ghost 1 aims four cells ahead of the player (with the code's row/column mix-up) and has two tied choices; with the
+   player's action 0 instead its target moves and only "left" remains; ghost 3 is still waiting (ghost_start 3): no move *)
+Example C09_PacMan_ghost_nonvacuous :
+  let s0 := gen_state DEFAULT_MAZE_ASCII in
+  let s := mkS (grid s0) (pellets s0) 0 (pellet_locs s0) (pu_locs s0) 5 6 [(6, 5); (6, 5); (6, 5); (6, 5)] (init_ghosts s0) (init_targets s0)
+               [(6, 4); (6, 4); (6, 4); (6, 4)] (g_init_steps s0) [3; 3; 3; 3] 0 false [-1; -1; -1; 3] (scatter s0) 7 (g_eaten s0) 0 in
+  ghost_set 31 28 s 4 0 = [true; false; true; true; false]
+  /\ ghost_set 31 28 s 4 1 = [true; false; false; true; false]
+  /\ ghost_set 31 28 s 0 1 = [true; false; false; false; false]
+  /\ ghost_set 31 28 s 4 3 = [false; false; false; false; true]
+  /\ exact_draw 31 28 s 4 [2; 3; 0; 4] = true /\ exact_draw 31 28 s 4 [1; 3; 0; 4] = false /\ exact_draw 31 28 s 0 [2; 3; 0; 4] = false.
+Proof. vm_compute. repeat split; reflexivity. Qed.
 (* non-vacuity: eating the power-up at (row 3, column 6) from (3, 7): 60 points, 30 frightened steps, 317 pellets left *)
 Example C09_PacMan_nonvacuous :
   let s0 := gen_state DEFAULT_MAZE_ASCII in
